@@ -94,7 +94,7 @@ func (r rawEncoder) Encode(b *bin.Buffer) error { b.Put(r); return nil }
 
 type fixedClock struct{}
 
-func (fixedClock) Now() time.Time                       { return time.Unix(1700000000, 0) }
+func (fixedClock) Now() time.Time                      { return time.Unix(1700000000, 0) }
 func (fixedClock) Timer(d time.Duration) clock.Timer   { panic("c04: unexpected Timer") }
 func (fixedClock) Ticker(d time.Duration) clock.Ticker { panic("c04: unexpected Ticker") }
 
